@@ -480,11 +480,12 @@ def _f32_expr(bs):
     return s if v >= 0 and not (v == 0 and math.copysign(1, v) < 0) else "(0 - %s)" % s
 
 
-KANI_CALLS = {"clamp_total": ("clamp(%s, %s, %s)", 3), "clamp_value": ("clamp(%s, %s, %s)", 3), "sign_table": ("sign(%s)", 1), "mix_ends": ("mix(%s, %s, %s)", 3)}
+KANI_CALLS = {"int_shortcut_exact": ("%s", 1), "clamp_total": ("clamp(%s, %s, %s)", 3), "clamp_value": ("clamp(%s, %s, %s)", 3), "sign_table": ("sign(%s)", 1), "mix_ends": ("mix(%s, %s, %s)", 3)}
 
 
 @generator("C01.fn.")
 @generator("C14.fn.")
+@generator("C14.fstr.")
 def _kani_counterexample(repo, ob, failure):
     """replay Kani's concrete counterexample (the f32 arguments) against the real binary"""
     cex = failure.get("counterexample")
@@ -498,6 +499,13 @@ def _kani_counterexample(repo, ob, failure):
     call = tmpl % tuple(_f32_expr(b) for b in floats)
     doc = '<svg><text xy="1" text="[{{%s}}]"/></svg>' % call
     r = run_svgdx(repo, doc)
+    if h == "int_shortcut_exact" and r["rc"] == 0:
+        import re as _re, struct as _st
+        x = _st.unpack("<f", bytes(floats[0]))[0]
+        m = _re.search(r"\[([-0-9.eE]+)\]</text>", r["out"])
+        if m and x == x and abs(float(m.group(1)) - x) > abs(x) * 1e-6:
+            return {"input": doc, "kani_values": [c["repr"] for c in cex], "expected": "the number %r" % x, "observed": m.group(1)}
+        return None
     if r["timeout"] or r["rc"] not in (0, 1, 2) or "panicked" in r["err"]:
         return {"input": doc, "kani_values": [c["repr"] for c in cex], "expected": "a value or an error, never a panic",
                 "observed": "exit %s: %s" % (r["rc"], " ".join(l.strip() for l in r["err"].split("\n") if "panicked" in l or "min > max" in l)[:300])}
